@@ -747,6 +747,9 @@ class Oracle:
         for nd in nodes:
             hdr, rest = nd.split(":", 1)
             lvl, pnum, full, lkl = [int(x) for x in hdr.split("/")]
+            if ";lk=" not in rest:
+                bad("structure walk: the record block of a node cannot be read (%s)" % nd[:60])
+                continue
             body, lk = rest.split(";lk=")
             keys = body.split(",")[1:]
             total += len(keys)
